@@ -393,7 +393,7 @@ def _c01(tag):
         for nobj, nthr, hp, tiers in ((2, 2, 1, ('quick', 'thorough')), (3, 2, 2, ('quick', 'thorough')), (3, 3, 1, ('thorough',)), (4, 2, 2, ('thorough',))):
             qs.append(Q('scanunit_%s_n%d_t%d_hp%d' % (st, nobj, nthr, hp), 'c01_scan.cpp', mode='seq', opt='O0',
                         defs={'NOBJ': nobj, 'NTHR': nthr, 'HPCOUNT': hp, 'SCAN_TYPE': st, 'SCAN_FN': st + '_scan', 'VERIF_SORT_MAX': max(nobj, nthr * hp)},
-                        unwind=max(nobj + 1, nthr * hp) + 2, timeout=900, tiers=tiers, validate=10, cxxflags=['-fno-access-control'], object_bits=14))
+                        unwind=max(nobj + 1, nthr * hp) + 4, timeout=900, tiers=tiers, validate=10, cxxflags=['-fno-access-control'], object_bits=14))
     def co(name, T, K, nupd=1, nread=1, hp=1, tiers=('quick', 'thorough'), timeout=900, U=4, style='guard'):
         qs.append(Q(name, 'c01_coro.cpp', mode='coro', T=T, K=K, opt='O1',
                     defs={'SCAN_TYPE': 'inplace', 'HPCOUNT': hp, 'NUPD': nupd, 'NREAD': nread, 'ROLE2': 0, 'VERIF_T': T, 'MODEL_SCAN': 1},
